@@ -34,6 +34,18 @@ def part_a(cr):
             cr.add("arn|create", "create_arn(%r) -> %r, expected %r" % (parts, s, want), {"kind": "arn", "property": PROP, "signature": "arn|create", "parts": parts}, size=1)
             continue
         p = A.parse_arn(s)
+        # parsing is a pure function of the text: what a caller does with the returned parts (the front ends edit them to derive an
+        # execution ARN) is not seen by the next caller, and building an ARN from parts leaves the parts alone
+        import copy as _copy
+        p0 = _copy.deepcopy(p)
+        built = A.create_arn(p)
+        same_after_create = p == p0
+        p["resource_type"] = "execution"; p["resource"] = str(p.get("resource")) + ":scribble"; p["account"] = "999"
+        p2 = A.parse_arn(s)
+        if p2 != p0 or not same_after_create or p2 is p:
+            cr.add("arn|parse-not-pure", "parse_arn(%r) gave %r, and after the caller edited that result %r (create_arn left its argument alone: %s)" % (s, p0, p2, same_after_create),
+                   {"kind": "arn", "property": PROP, "signature": "arn|parse-not-pure", "parts": parts}, size=1)
+        p = _copy.deepcopy(p0)
         # (a resource containing '/' is outside the property: the API refuses such names, and role ARNs are only ever parsed)
         if "/" not in parts["resource"] and A.create_arn(p) != s:
             cr.add("arn|parse-create", "create_arn(parse_arn(%r)) -> %r" % (s, A.create_arn(p)), {"kind": "arn", "property": PROP, "signature": "arn|parse-create", "parts": parts}, size=1)
